@@ -221,6 +221,9 @@ func (p *Prog) computeWrites() {
 					} else if callee.FullName() == "sort.Slice" && len(x.Args) > 0 {
 						g.scanLhs(x.Args[0], ws)
 					}
+					for _, k := range libEffectKeys(callee.FullName()) {
+						fi.Writes[k] = true
+					}
 					return true
 				}
 				if id, ok := unparen(x.Fun).(*ast.Ident); ok {
